@@ -17,7 +17,7 @@ from struct import unpack
 
 import xfrm
 from crypto import Cipher, Crypto, DiffieHellman, Integrity, Prf
-from message import (AuthenticationFailed, ChildSaNotFound, IkeSaError, InvalidKePayload,
+from message import (AuthenticationFailed, ChildSaNotFound, IkeSaError, InvalidKePayload, MissingEncryptedPayload,
                      NoProposalChosen, TemporaryFailure, TsUnacceptable, CookieRequired)
 from message import (Message, Payload, PayloadAUTH, PayloadDELETE, PayloadIDi, PayloadIDr, PayloadKE, PayloadNONCE,
                      PayloadNOTIFY, PayloadSA, PayloadTSi, PayloadTSr, PayloadVENDOR, Proposal, Transform)
@@ -361,7 +361,11 @@ class IkeSa(object):
 
     def process_message(self, data):
         # parse the whole message (including encrypted data)
-        message = Message.parse(data, header_only=False, crypto=self.peer_crypto)
+        try:
+            message = Message.parse(data, header_only=False, crypto=self.peer_crypto)
+        except MissingEncryptedPayload as ex:
+            self.log_error(f'{ex}. Ignoring')
+            return None
         self.log_message(message, data, send=False)
 
         # check the role the sender claims to have corresponds with what we think about ourselves
